@@ -369,6 +369,8 @@ class Analyzer:
             return
         if root in percall and role == 'grammar':
             return      # p[<expr>] under ply's contract: not used today
+        if root is not None and _under_len_test(n, root, fi.node):
+            return      # index guarded by a test of len(<sequence>)
         if isinstance(n.value, ast.Name) and n.value.id in \
                 model.local_names_of(fi.node) and n.value.id not in percall:
             return      # local list/dict built in this function
